@@ -16,6 +16,7 @@ SPEC = {
     ],
     "assumptions": [
         "block protocol: disburseFeesVQ (BeginBlock) and disburseFeesP (EndBlock) alternate, one each per block (the model returns RMisuse otherwise); between them the persisted last-block-fees value is stale in the code and is not counted",
+        "governance campaigns (most insecure-beacon histories): staking ChangeParameters proposals (fee split weights incl. vote+next = 0, reward factors, reward schedule, minimum amounts, MinTransactBalance, MaxAllowances, debonding interval) submitted by an account and voted through by all validator entities, with a fee-paying transfer in every block; each block's model operations use the parameters read from the real state before that block",
         "histories: insecure beacon (epoch every 4 blocks) or mock beacon with set-epoch transactions jumping 1..4 epochs, debonding intervals 1..4, optional genesis debonding delegations that are already expired; 6 % of the blocks are proposed by a node the registry does not know (no proposer entity)",
         "a BeginBlock/EndBlock error aborts the block (multiplexer panics): modelled as RFatal with the state unchanged",
         "not modelled: withdraw hooks of vault accounts, roothash runtime messages (TransferFromCommon is modelled and proved but not exercised by K: no runtimes in the histories), UndisableTransfersFrom, registry stake claims, gas accounting beyond 'limit covers size (+ operation)'",
